@@ -316,7 +316,7 @@ ValKind op_value_kind(int op) {
       return VK_ELEM;
     case OP_LOG: case OP_LIFT: case OP_RMINUS: case OP_LMINUS: case OP_MINUS: case OP_SUB:
     case OP_BRACKET: case OP_TPLUS: case OP_TMINUS: case OP_T_NEG: case OP_T_SCALE: case OP_T_ADD_T: case OP_T_SUB_T:
-    case OP_T_CASTRT: case OP_JT_MUL: case OP_ZERO: case OP_VEE: case OP_BRACKET_S: case OP_T_RANDOM:
+    case OP_T_CASTRT: case OP_T_CONSTRUCT: case OP_JT_MUL: case OP_ZERO: case OP_VEE: case OP_BRACKET_S: case OP_T_RANDOM:
     case OP_TM_ASSIGN: case OP_TM_SETZERO: case OP_TM_SETRANDOM: case OP_TM_PLUSEQ: case OP_TM_MINUSEQ:
     case OP_TM_MULEQ: case OP_TM_DIVEQ: case OP_TM_STREAM: case OP_TM_LOG_INTO: case OP_TM_ASSIGN_EIGEN:
     case OP_TM_COEFFWRITE: case OP_TM_SETVEE: case OP_TM_BLOCKSET: case OP_TM_MOVE_ASSIGN:
